@@ -25,6 +25,7 @@ func runC24(w *World, r *Report) {
 	r.Rule("R-C24-1", "call-site protocol: every ValidatePassword call (also through a thin wrapper) is behind CheckRateLimit's not-locked edge on the same user value, and its false / true outcome leads to RecordFailure / RecordSuccess before any return", 6)
 	r.Rule("R-C24-2", "guarded-by and keying: loginAttempts is accessed only with loginAttemptsMu held and only with a key derived from strings.ToLower(username parameter)", 5)
 	r.Rule("R-C24-3", "zero limit: in CheckRateLimit and RecordFailure every access to the attempts table is unreachable once the 'limit != 0' edge is removed", 2)
+	r.Rule("R-C24-6", "the lockout deadline RecordFailure stores is computed from time.Now() of that call, never from a time kept in the attempt record", 1)
 	r.Rule("R-C24-4", "the lockout deadline is stored only on an edge establishing failures >= limit (or >), never on an equality; RecordSuccess deletes the user's record on every path", 2)
 
 	rp := w.pkg("internal/router")
@@ -345,6 +346,32 @@ func runC24(w *World, r *Report) {
 			}
 
 			n++
+
+			// R-C24-6: the deadline counts from now, not from a time kept in the record
+			{
+				key6 := "router.RecordFailure|deadline counted from now"
+
+				fromNow := derivesFrom(st.Val, func(v ssa.Value) bool {
+					c, ok := v.(*ssa.Call)
+
+					return ok && callID(c.Common()) == "time.Now"
+				}, func(id string) bool { return strings.HasPrefix(id, "time.") })
+
+				fromRecord := derivesFrom(st.Val, func(v ssa.Value) bool {
+					fa, ok := v.(*ssa.FieldAddr)
+
+					return ok && (fieldName(fa.X.Type(), fa.Field) == "lastFailure" || fieldName(fa.X.Type(), fa.Field) == "lockedUntil")
+				}, func(id string) bool { return strings.HasPrefix(id, "time.") })
+
+				switch {
+				case fromRecord:
+					r.Violate("R-C24-6", key6, w.pos(in.Pos()), "the lockout deadline is computed from a time stored in the attempt record (the previous failure, or the old deadline), not from the present: the lockout is shortened by the gap between failures, and not applied at all when the gap exceeds the lockout duration")
+				case fromNow:
+					r.Discharge("R-C24-6", key6, w.pos(in.Pos()), "time.Now() plus the lockout duration")
+				default:
+					r.Violate("R-C24-6", key6, w.pos(in.Pos()), "the lockout deadline does not derive from time.Now()")
+				}
+			}
 
 			key := "router.RecordFailure|lock-on-threshold"
 			if len(cuts) == 0 || instrReachableAfterCut(fn, in, cuts) {
